@@ -5,7 +5,7 @@ each of the six faults injected at every possible position.  Oracle (evaluated i
 Dialect/FaultCheck.v, on what the IMPLEMENTATION did): MoleculeResolver.from_string(s).resolve_all()
 raises SyntaxError (TypeError for the non-numeric value), never returns a graph, never raises
 anything else.  Models: annotation faults = the dialect model of C14; ring faults = the ring-table
-fold; missing fragment = the loop of resolve_disconnected_molecule (Dialect/FaultModels.v); each is
+fold AND the reader component's ReaderImpl.read_cgsmiles on the text the reader is called on; missing fragment = the loop of resolve_disconnected_molecule (Dialect/FaultModels.v); each is
 compared with the implementation on every case."""
 import contextlib
 import io
@@ -192,6 +192,15 @@ def free_digit(text):
 
 
 # ----------------------------------------------------------------------------- fault enumeration
+def reader_text(pi, new):
+    """what read_cgsmiles is called on: the base graph with its braces and annotations; for a coarse fragment
+    the text without descriptors and without annotations (strip_bonding_descriptors removes both)"""
+    if pi == 0:
+        return '{' + new + '}'
+    t = DESC_RE.sub('', new)
+    return NODE_RE.sub(lambda m: '[#' + m.group(0)[2:-1].split(';')[0] + ']', t)
+
+
 def ring_faults(valid):
     out = []
     for pi, a, b in graph_texts(valid):
@@ -205,7 +214,7 @@ def ring_faults(valid):
         for (s0, s1, k, n) in toks:
             if n == 1 and not clean[s1:s1 + 1] == '|':
                 new = text[:s1] + d + text[s1:]
-                out.append({'kind': 'ring', 'fault': 1, 's': splice(valid, pi, a, b, new),
+                out.append({'kind': 'ring', 'fault': 1, 's': splice(valid, pi, a, b, new), 'reader_text': reader_text(pi, new),
                             'graph_text': blank_descriptors(new).replace(' ', ''), 'm': int(d), 'where': [pi, k]})
         # 2: ring bond duplicating every existing edge
         tok_of = {}
@@ -216,7 +225,7 @@ def ring_faults(valid):
             if u in tok_of and v in tok_of and u != v:
                 tu, tv = sorted([tok_of[u], tok_of[v]])
                 new = text[:tu[1]] + d + text[tu[1]:tv[1]] + d + text[tv[1]:]
-                out.append({'kind': 'ring', 'fault': 2, 's': splice(valid, pi, a, b, new),
+                out.append({'kind': 'ring', 'fault': 2, 's': splice(valid, pi, a, b, new), 'reader_text': reader_text(pi, new),
                             'graph_text': blank_descriptors(new).replace(' ', ''), 'm': int(d), 'where': [pi, u, v]})
     return out
 
@@ -319,7 +328,7 @@ class C20(common.Prop):
                  'rejected wherever it stands) + per-case correspondence of the three models with the implementation '
                  '+ the property evaluated in Coq on the exception the implementation raised, for every fault kind at '
                  'every position of generated valid strings')
-    vo_deps = ['theories/Dialect/FaultCheck.vo']
+    vo_deps = ['theories/Dialect/FaultCheck.vo', 'theories/Reader/ReaderImpl.vo']
     prop_file = 'theories/Properties/C20.v'
     case_requires = ('From Coq Require Import String.\nFrom Coq Require Import List Ascii ZArith Bool.\n'
                      'From CGV Require Import Base.PyBase Base.PyVal Dialect.DialectImpl Dialect.DialectDefs '
@@ -378,6 +387,9 @@ class C20(common.Prop):
         out = {'exc': exc}
         if case['kind'] == 'annot':
             out['table'] = c14.float_table(c14.candidates(case['text']))
+        if case['kind'] == 'ring':
+            out['table'] = c14.float_table({c for m in NODE_RE.finditer(case['reader_text'])
+                                            for c in c14.candidates(m.group(0)[2:-1])})
         if case['kind'] == 'frag':
             hit = [r for r in rec if any(nm == 'ZZ' for _, nm in r['nodes'])]
             if not hit:
@@ -394,7 +406,7 @@ class C20(common.Prop):
 
     def coq_case(self, case, impl):
         if 'skip' in impl:
-            return '(FRing 1%nat [EvRing 0%Z 1%Z] 1%Z (Some (ESyntax (S "dangling"))))'
+            return '(FRing 1%nat [EvRing 0%Z 1%Z] 1%Z [] (S "{[#A]1}") (Some (ESyntax (S "dangling"))))'
         im = 'None' if impl['exc'] is None else '(Some %s)' % c14.coq_err(impl['exc'])
         if case['kind'] == 'annot':
             return '(FAnnot %s %s %s %s %s)' % (lit.nat(case['lk']), lit.nat(case['fault']), c14.coq_table(impl['table']),
@@ -403,7 +415,8 @@ class C20(common.Prop):
             evs, _ = events(case['graph_text'])
             ev = lit.lst(['(EvNode %s %s)' % (lit.z(e[1]), lit.opt(e[2], lit.z)) if e[0] == 'N'
                           else '(EvRing %s %s)' % (lit.z(e[1]), lit.z(e[2])) for e in evs])
-            return '(FRing %s %s %s %s)' % (lit.nat(case['fault']), ev, lit.z(case['m']), im)
+            return '(FRing %s %s %s %s %s %s)' % (lit.nat(case['fault']), ev, lit.z(case['m']), c14.coq_table(impl['table']),
+                                                 lit.s(case['reader_text']), im)
         nodes = lit.lst([lit.pair(lit.z(k), lit.s(nm if nm is not None else '')) for k, nm in impl['nodes']])
         edges = lit.lst(['(%s, %s, %s)' % (lit.z(u), lit.z(v), lit.z(o)) for u, v, o in impl['edges']])
         return '(FFrag %s %s %s %s %s)' % (nodes, edges, lit.lst([lit.s(d) for d in impl['dict']]), lit.z(impl['bad']), im)
